@@ -80,7 +80,7 @@ CLAIMED = {
          "Hook: amiquip::verif::decode_url. Ambiguous shapes are not generated (explicitly empty user/password, dot path segments, '+'-signed numbers, trailing-slash paths, spellings of external other than 'external').",
          "DESIGN.md 4/C19"),
  "C02": ("property-based testing (proptest strategies, custom runner) of the real client on a mock transport; oracle = independent envelope parser + field-by-field comparison with the publish arguments",
-         "Exploration: generated publishes (all frame_max pairs, boundary body lengths, arbitrary properties/flags) run end-to-end through the real I/O thread; the decoded wire must equal the reference framing of every publish. Bounded sampling, no proof.",
+         "Exploration: generated publishes (all frame_max pairs, boundary body lengths, arbitrary properties/flags, optionally a fragmenting transport) run end-to-end through the real I/O thread; the decoded wire must equal the reference framing of every publish. A second part publishes while the server cancels consumers of the publishing channel, so that the I/O thread writes CancelOk on it: no such frame may stand inside a publish. Bounded sampling, no proof.",
          "Trusts amq-protocol's payload codec, mio/mio-extras/crossbeam semantics and the harness's envelope parser; bodies <= 300 KB, <= 3 channels, one publishing thread per session.",
          "DESIGN.md 4/C02"),
  "C14": ("model-based property testing (bounded-exhaustive enumeration for n<=4/5 tags + proptest random histories) against a reference smoother model",
